@@ -404,6 +404,9 @@ def run_all(ck, specs):
 
 def run(tier):
     ck = Check(PID, "model_checking", tier)
+    for f in os.listdir(vlib.REPLAY):      # replay files of an earlier run of this tier
+        if f.startswith("%s-%s-" % (PID, tier)):
+            os.remove(os.path.join(vlib.REPLAY, f))
     LIBDIR[0] = vlib.build_lib()
     EXE[0] = vlib.build_harness("poly_run")
     quick = tier == "quick"
